@@ -7,7 +7,7 @@ pub fn meta() -> PropertyMeta {
     PropertyMeta {
         id: "C15",
         level: "exploration",
-        rule: "histories of 1..40 steps interleaving, for both OPERation and QUEStionable: device-side set_condition(any u16) / set_condition_bits / clear_condition_bits / clear_event, with get_summary() and get_condition_bit() compared after every step; ENABle / PTRansition / NTRansition writes of 0..65535 (decimal, #H, NR2; 65536 and -1 as rejects) and their queries; [:EVENt]?, :CONDition?, *CLS, STATus:PRESet; values biased to single bits, 0x7FFF, 0x8000, 0xFFFF. Oracle: per-bit latch model (event |= (rise & ptr) | (fall & ntr) with the filters in force at that moment); responses and the raw EventRegister fields compared after every step; both register sets run in one history so that independence is checked. Added: per bit (all 16, both registers) EVERY (PTR, NTR, ENABle) setting x EVERY sequence of up to 5 (6) operations over {set bit, clear bit, read event, read condition, *STB?}. Non-trivial: a condition bit toggles at least twice between two event reads, or a filter is written between two transitions of the same register.",
+        rule: "histories of 1..40 steps interleaving, for both OPERation and QUEStionable: device-side set_condition(any u16) / set_condition_bits / clear_condition_bits / clear_event / ScpiDevice::preset_register::<REG>(), with get_register / get_register_summary / get_summary() and get_condition_bit() compared after every step; ENABle / PTRansition / NTRansition writes of 0..65535 (decimal, #H, NR2; 65536 and -1 as rejects) and their queries; [:EVENt]?, :CONDition?, *CLS, STATus:PRESet; values biased to single bits, 0x7FFF, 0x8000, 0xFFFF. Oracle: per-bit latch model (event |= (rise & ptr) | (fall & ntr) with the filters in force at that moment); responses and the raw EventRegister fields compared after every step; both register sets run in one history so that independence is checked. Added: per bit (all 16, both registers) EVERY (PTR, NTR, ENABle) setting x EVERY sequence of up to 5 (6) operations over {set bit, clear bit, read event, read condition, *STB?}. Non-trivial: a condition bit toggles at least twice between two event reads, or a filter is written between two transitions of the same register.",
         assumptions: &["STATus:PRESet sets enable 0, PTR all ones, NTR 0 and nothing else (the condition register is device state)"],
         run,
     }
@@ -26,6 +26,12 @@ pub fn check(h: &History, obs: &Obs) -> CheckResult {
                 DevEvent::SetCond(r, _) | DevEvent::SetBits(r, _) | DevEvent::ClearBits(r, _) => *r as usize,
                 DevEvent::ClearEvent(r) => {
                     toggles[*r as usize] = 0;
+                    continue;
+                }
+                DevEvent::PresetOne(r) => {
+                    if seen_transition[*r as usize] {
+                        filter_between = true;
+                    }
                     continue;
                 }
             };
@@ -125,7 +131,7 @@ fn run(e: &Engine) {
             let mask = 1u16 << bit;
             for filt in 0u8..8 {
                 let v = |on: bool| if on { mask as i32 } else { 0 };
-                let setup = Step { events: vec![], mav: false, tst: None, units: vec![(U::Ptr(reg, v(filt & 1 != 0)), 0), (U::Ntr(reg, v(filt & 2 != 0)), 0), (U::Enab(reg, v(filt & 4 != 0)), 0)] };
+                let setup = Step { events: vec![], mav: false, tst: None, units: vec![(U::Ptr(reg, v(filt & 1 != 0)), 0), (U::Ntr(reg, v(filt & 2 != 0)), 0), (U::Enab(reg, v(filt & 4 != 0)), 0)], stored: None };
                 for len in 1..=max_ops {
                     for code in 0..5u32.pow(len) {
                         let mut steps = vec![setup.clone()];
@@ -134,11 +140,11 @@ fn run(e: &Engine) {
                             let op = c % 5;
                             c /= 5;
                             steps.push(match op {
-                                0 => Step { events: vec![DevEvent::SetBits(reg, mask)], mav: false, tst: None, units: vec![(U::Cond(reg), 0)] },
-                                1 => Step { events: vec![DevEvent::ClearBits(reg, mask)], mav: false, tst: None, units: vec![(U::Cond(reg), 0)] },
-                                2 => Step { events: vec![], mav: false, tst: None, units: vec![(U::Ev(reg), 0)] },
-                                3 => Step { events: vec![], mav: false, tst: None, units: vec![(U::Cond(reg), 0), (U::EnabQ(reg), 0)] },
-                                _ => Step { events: vec![], mav: false, tst: None, units: vec![(U::StbQ, 0)] },
+                                0 => Step { events: vec![DevEvent::SetBits(reg, mask)], mav: false, tst: None, units: vec![(U::Cond(reg), 0)], stored: None },
+                                1 => Step { events: vec![DevEvent::ClearBits(reg, mask)], mav: false, tst: None, units: vec![(U::Cond(reg), 0)], stored: None },
+                                2 => Step { events: vec![], mav: false, tst: None, units: vec![(U::Ev(reg), 0)], stored: None },
+                                3 => Step { events: vec![], mav: false, tst: None, units: vec![(U::Cond(reg), 0), (U::EnabQ(reg), 0)], stored: None },
+                                _ => Step { events: vec![], mav: false, tst: None, units: vec![(U::StbQ, 0)], stored: None },
                             });
                         }
                         if !f(History { bounded: false, steps }) {
